@@ -186,6 +186,9 @@ func Param(name string, def int) int {
 // Symbolic is true inside the VM's symbolic mode.
 func Symbolic() bool { return false }
 
+// InVM is true when executed by the VM (symbolic or concrete mode).
+func InVM() bool { return false }
+
 func mix(v uint64) { digest ^= v + 0x9e3779b97f4a7c15 + (digest << 6) + (digest >> 2) }
 
 func hashStr(s string) uint64 {
@@ -224,6 +227,12 @@ func Actor(i int) {}
 func WouldBlock(f func()) bool { panic(vmOnly{"vnd.WouldBlock"}) }
 
 type vmOnly struct{ what string }
+
+// SetSyncObserver installs f to be called by the VM at every synchronisation
+// operation (atomic store/swap, mutex lock/unlock, channel close) of the main
+// thread - "another goroutine takes a snapshot here". VM-only; natively a no-op.
+func SetSyncObserver(f func(point string)) {}
+func ObserverCalls() int                  { return 0 }
 
 func Go(f func())    { go f() }
 func Yield()         {}
